@@ -120,7 +120,7 @@ def run(prop, tier, seed):
     results = C.pmap(build_and_run, range(len(jobs)))
     # structure of the emitted program against the compiler model's IR, and the IR's run against the definition
     mir = C.run_model(["compir 1 %d %s" % (lv, G.cps(cases[k][1])) for k, lv in jobs])
-    mrun = C.run_model(["comp 1 %d %d %s %s" % (lv, 4000 if quick else 20000, G.cps(cases[k][1]), G.cps(cases[k][2])) for k, lv in jobs])
+    mrun = C.run_model(["comp 1 %d %d %s %s" % (lv, 4000 if quick else 8000, G.cps(cases[k][1]), G.cps(cases[k][2])) for k, lv in jobs])
     corr = []
     for (k, lv), src, mi, mr in zip(jobs, srcs, mir, mrun):
         if not src.startswith("src:"):
